@@ -4,8 +4,8 @@ import json, os, random, re, shutil, subprocess, tempfile, time, collections
 from . import pool, gen, build
 
 TIERS = {
-    "quick": dict(n=110, nadv=30, cfgs=3, reps_every=3),
-    "thorough": dict(n=1400, nadv=300, cfgs=4, reps_every=2),
+    "quick": dict(n=110, nadv=30, cfgs=3, reps_every=3, outside=14),
+    "thorough": dict(n=1400, nadv=300, cfgs=4, reps_every=2, outside=80),
 }
 
 
@@ -112,10 +112,14 @@ def _run(cdir, seed, tier, T, root, log):
         j.setdefault("id", "corpus/" + j["dir"] + "#" + ",".join(j["args"]) + "#" + j.get("pkg", ""))
     cases = gen.make_cases(rnd, root, T["n"], adversarial=False, prefix="src")
     cases += gen.make_cases(rnd, root, T["nadv"], adversarial=True, prefix="adv")
+    nout = 0
     for c in cases:
         for k, cfg in enumerate(gen.configs_for(rnd, c, T["cfgs"])):
             cfg["id"] = "%s#%d" % (c["dir"], k)
             cfg["adv"] = c["adv"]
+            if k == 0 and c.get("named") and not c["adv"] and nout < T["outside"]:
+                cfg["outside"] = True   # also generated from a working directory outside the module (C16)
+                nout += 1
             jobs.append(cfg)
     harness, driver = os.path.join(cdir, "harness"), os.path.join(cdir, "driver")
     env = dict(pool.GOENV, VERIF_EXPORTS=export_list(root))
@@ -124,11 +128,16 @@ def _run(cdir, seed, tier, T, root, log):
     cases_s = [r["case"] for r in fres if r and r.get("case")]
     model = pool.run_driver(driver, cases_s) if os.path.exists(driver) else {}
     # real runs + oracles
+    outside = tempfile.mkdtemp(prefix="moqverif-outside-")
     reqs = []
     for i, j in enumerate(jobs):
         reqs.append({"job": j, "fmts": ["noop", "", "goimports"], "oracle": True,
-                     "reps": 8 if j.get("corpus") else (3 if i % T["reps_every"] == 0 else 0)})
-    rres = pool.run_jobs(harness, root, reqs, env=env, timeout=120)
+                     "reps": 8 if j.get("corpus") else (3 if i % T["reps_every"] == 0 else 0),
+                     "outside": outside if j.get("outside") else ""})
+    try:
+        rres = pool.run_jobs(harness, root, reqs, env=env, timeout=120)
+    finally:
+        shutil.rmtree(outside, ignore_errors=True)
     records = []
     for j, f, r in zip(jobs, fres, rres):
         rec = {"id": j["id"], "job": job_key(j), "adv": bool(j.get("adv")), "corpus": bool(j.get("corpus")),
@@ -214,6 +223,10 @@ def distribution(records):
             if j.get(k):
                 c["flag:" + k] += 1
         c["args:%d" % min(len(j.get("args", [])), 4)] += 1
+        if "goimports@outside" in (r.get("real") or {}):
+            c["outside_cwd_runs"] += 1
+            if (r.get("checks") or {}).get("C16-outside-F23"):
+                c["outside_cwd_f23_class"] += 1
         if m.get("orddep") == "true":
             c["model_order_dependent"] += 1
         if (m.get("err") or "").startswith("<"):
